@@ -19,6 +19,7 @@ import (
 	"time"
 
 	"github.com/openGemini/openGemini/engine/immutable"
+	"github.com/openGemini/openGemini/lib/config"
 	"github.com/openGemini/openGemini/lib/errno"
 	"github.com/openGemini/openGemini/lib/logger"
 	"github.com/openGemini/openGemini/lib/metaclient"
@@ -536,6 +537,24 @@ func (run *dRun) engineOptions() EngineOptions {
 	o.OpenShardLimit = 8
 	o.LazyLoadShardEnable = false
 	o.MaxRowsPerSegment = run.c.Knobs.RowsPerSegment
+	// The compaction section of the options as ts-store fills it (app/ts-store/storage/storage.go, NewStorage) from the
+	// corrected configuration (app/ts-store/run/server.go: conf.Data.Corrector -> Store.CorrectorThroughput).  NewEngine
+	// applies every one of these values to process-wide limiters; with the zero values of NewEngineOptions()
+	// fileops.SetBackgroundReadLimiter(0) gives the background-read limiter burst 0, every low-priority read of a
+	// compaction fails ("rate: Wait(n=..) exceeds limiter's burst 0"), NewFileIterators returns "no enough files to do
+	// compact" and the task ends without doing anything (logged only); SetCompactLimit(0, 0) would make LimitWriter.Write
+	// spin for ever.  n = max(1, cpus/4) = 1: the files of a case are far below one second of any of these rates.
+	sc := config.NewStore()
+	sc.CorrectorThroughput(4)
+	o.CompactThroughput = int64(sc.Compact.CompactThroughput)
+	o.CompactThroughputBurst = int64(sc.Compact.CompactThroughputBurst)
+	o.CompactRecovery = sc.Compact.CompactRecovery
+	o.SnapshotThroughput = int64(sc.Compact.SnapshotThroughput)
+	o.SnapshotThroughputBurst = int64(sc.Compact.SnapshotThroughputBurst)
+	o.BackgroundReadThroughput = int(sc.Compact.BackGroundReadThroughput)
+	o.MaxConcurrentCompactions = sc.Compact.MaxConcurrentCompactions
+	o.MaxFullCompactions = sc.Compact.MaxFullCompactions
+	o.FullCompactColdDuration = time.Duration(sc.Compact.CompactFullWriteColdDuration)
 	return o
 }
 
@@ -955,6 +974,18 @@ func (run *dRun) step(i int, op DOp) *core.Violation {
 			}
 			if err != nil {
 				return sviol(run.prop, "reorg_error", fmt.Sprintf("op %d: %s on shard %d = %v", i, op.K, es.id, err), nil)
+			}
+			if os.Getenv("DW_DEBUG") != "" {
+				if mt, ok := sh.immTables.(*immutable.MmsTables); ok {
+					for name, fs := range mt.Order {
+						var lv []string
+						for _, f := range fs.Files() {
+							l, q := f.LevelAndSequence()
+							lv = append(lv, fmt.Sprintf("L%d/seq%d", l, q))
+						}
+						fmt.Printf("DW after %s(level %d) shard %d %s ordered: %v\n", op.K, op.Level, es.id, name, lv)
+					}
+				}
 			}
 		}
 		out.Log("op%d %s level=%d force=%v", i, op.K, op.Level, op.Force)
